@@ -149,7 +149,12 @@ for sidx in range(N):
         with time_limit(60):
             client_mod.httpx.request = peer.request
             _random.seed(sidx)
-            cl.run(bc, dry_run=True, beacon_id=2 * rng.randrange(1, 2**30), silent=True, user="u", computer="c", process="p.exe")
+            # identities up to and beyond the widest info field the client emits (51 bytes), ids at the ends of the range
+            ident = rng.choice([("c", "u", "p.exe"), ("", "", ""), ("WORKSTATION-0123456789", "administrator-long", "svchost.exe"),
+                                ("C" * 20, "U" * 20, "P" * 9), ("C" * 30, "U" * 30, "P" * 30), ("h\u00f6st", "\u00fcser", "pr\u00f6c.exe")])
+            bid = rng.choice([2, 2 ** 31 - 2, 0x40000000, 2 * rng.randrange(1, 2 ** 30)])
+            witness["identity"], witness["beacon_id"] = list(ident), bid
+            cl.run(bc, dry_run=True, beacon_id=bid, silent=True, computer=ident[0], user=ident[1], process=ident[2])
             sent_tasks = []
             # the first message of a session is a check-in (the peer learns the session keys from the metadata)
             for a in ["checkin"] + actions:
